@@ -428,3 +428,27 @@ _fin = {"np.isfinite": (lambda it, a: __import__("numpy").isfinite(a)), "np.all"
 for _tag, _kind, _want in (("all_finite", None, False), ("nan_in_a_parameter", "a_par:nan", True), ("infinity_in_a_compartment_of_the_second_population", "b_comp:inf", True), ("nan_in_a_characteristic", "a_charac:nan", True), ("nan_in_a_link", "b_link:nan", True)):
     CONTRACTS["results:Result.check_for_nans#%s" % _tag] = dict(schema=schema, make_env=_env_nans(_kind), call_stubs=_fin,
                                                                 ensures=[("C02.reports_exactly_whether_some_output_is_not_finite", "result is %r" % _want)], defined_props=["C02"])
+
+
+def _replay_program_cache(model, contract):
+    """replay on the REAL Model._update_program_cache: the tb demo model with its programs; every program must reach len(target_pops) x len(target_comps) compartments"""
+    import logging
+    import warnings
+
+    warnings.filterwarnings("ignore")
+    import atomica as at
+
+    at.logger.setLevel(logging.ERROR)
+    P = at.demo("tb", do_run=False)
+    ps = P.progsets[0]
+    m = at.Model(P.settings, P.framework, P.parsets[0], ps, at.ProgramInstructions(start_year=2018))
+    m._update_program_cache()
+    bad = []
+    for prog in ps.programs.values():
+        got, want = len(m._program_cache["comps"][prog.name]), len(prog.target_pops) * len(prog.target_comps)
+        if got != want:
+            bad.append("%s targets %d populations x %d compartments, the run reaches %d compartments" % (prog.name, len(prog.target_pops), len(prog.target_comps), got))
+    return dict(verdict="violates" if bad else "holds", detail="; ".join(bad[:3]) or "every program reaches all its targeted compartments in all its targeted populations", prestate=dict(demo="tb", programs=len(ps.programs)))
+
+
+CONTRACTS["model:Model._update_program_cache#compartments_of_one_program"]["replay_hook"] = _replay_program_cache
